@@ -21,6 +21,8 @@ type Opt struct {
 	StartBlock *ssa.BasicBlock
 	Cuts       []ir.Edge
 	Fact       string
+	// HelperCuts: the same fact expressed for a helper function (edges of h that contradict it)
+	HelperCuts func(h *ssa.Function) []ir.Edge
 }
 
 func (o *Opt) start() ssa.Instruction {
@@ -56,6 +58,11 @@ func Dominates(c *core.Ctx, rule string, fn *ssa.Function, g NamedGuard, sinks [
 	g.G = ir.AllForms(g.G)
 	if fn == nil {
 		return false
+	}
+	if opt != nil && opt.HelperCuts != nil {
+		prev := FactCutsFor
+		FactCutsFor = opt.HelperCuts
+		defer func() { FactCutsFor = prev }()
 	}
 	c.Touch(fn)
 	construct := g.Name + " ≺ " + sinkDesc
@@ -135,6 +142,11 @@ func Dominates(c *core.Ctx, rule string, fn *ssa.Function, g NamedGuard, sinks [
 func MustPassCall(c *core.Ctx, rule string, fn *ssa.Function, callDesc string, pred func(ssa.CallInstruction) bool, sinks []ir.Sink, sinkDesc string, opt *Opt) bool {
 	if fn == nil {
 		return false
+	}
+	if opt != nil && opt.HelperCuts != nil {
+		prev := FactCutsFor
+		FactCutsFor = opt.HelperCuts
+		defer func() { FactCutsFor = prev }()
 	}
 	c.Touch(fn)
 	construct := "call " + callDesc + " ≺ " + sinkDesc
